@@ -3,7 +3,7 @@ import cmd
 from functools import wraps
 from pyparsing.exceptions import ParseException
 from qbee.stmt import Block
-from qbee.exceptions import InternalError, SyntaxError
+from qbee.exceptions import InternalError, SyntaxError, CompileError
 from qbee import grammar
 from .module import QModule
 from .machine import QvmMachine
@@ -544,7 +544,7 @@ Type help or ? to list commands.
         tree.bind(self.eval_context)
         try:
             value = tree.eval()
-        except (EvalError, InternalError) as e:
+        except (EvalError, InternalError, CompileError) as e:
             # (InternalError: a node that cannot be evaluated outside a
             # running program, such as a builtin function call)
             print('Eval error:', e)
